@@ -226,6 +226,52 @@ def unregistered_user():
     finally:
         shutil.rmtree(base, ignore_errors=True)
 
+def oldest_first(rnd):
+    """automatic cleaning removes unused packages oldest (least recently USED) first, only until the quota is met: N packages
+    of equal size are installed and aged, some are used again later (by their recorded workspace or by a new one), all projects
+    vanish, then an install under a quota with room for K packages must keep exactly the K-1 most recently used ones"""
+    import time
+    base = tempfile.mkdtemp(prefix='c15o-'); share_dir = os.path.join(base, 'share'); os.makedirs(share_dir); log = []
+    try:
+        n = rnd.randint(2, 4); projs = []; paths = []; last_use = []
+        for i in range(n):
+            p = Project(base, 'p%d' % i, share_dir, None); r = p.op('install', bytes([0x20 + i]) * 20, chr(65 + i) * 1000)
+            if r[0] != 'ok' or not r[1][2]: return None
+            projs.append(p); paths.append(r[1][1]); last_use.append(None)
+        def age(i, seconds):
+            t = time.time() - seconds; os.utime(os.path.join(paths[i], 'pkg.json'), (t, t)); last_use[i] = t
+        for i in range(n): age(i, 10000 - 1000 * i); log.append('P%d installed, last use %ds ago' % (i, 10000 - 1000 * i))
+        # later re-uses: by the recorded workspace itself (rebuild) or by another project
+        for i in rnd.sample(range(n), rnd.randint(1, n - 1)):
+            who = rnd.choice(['same', 'other'])
+            if who == 'same':
+                ws = projs[i].links[0][0]; r = projs[i].share.useSharedPackage(ws, bytes([0x20 + i]) * 20)
+            else:
+                r = projs[(i + 1) % n].op('use', bytes([0x20 + i]) * 20); r = r[1][1:] if r[0] == 'ok' else (None,)
+            if r[0] is None: return None
+            last_use[i] = time.time()     # the moment of the use, whatever the store recorded
+            time.sleep(0.03)          # (file time stamps are coarse: keep the uses apart)
+            log.append('P%d used again now by %s workspace' % (i, 'its recorded' if who == 'same' else 'another'))
+        size = json.load(open(os.path.join(share_dir, 'repo.json')))['pkgs'][(bytes([0x20]) * 20).hex()]
+        for p in projs: shutil.rmtree(p.base, ignore_errors=True)
+        log.append('all projects removed')
+        k = rnd.randint(1, n)                       # room for k packages (and a half)
+        q = Project(base, 'q', share_dir, str(size * k + size // 2)); r = q.op('install', bytes([0x7f]) * 20, 'Z' * 1000)
+        log.append('install under a quota with room for %d packages' % k)
+        if r[0] != 'ok': return {'kind': 'operation-failed', 'failed': r[1], 'history': log}
+        if not os.path.isdir(r[1][1]): return {'kind': 'fresh-package-collected', 'history': log}
+        have = {i for i in range(n) if os.path.isdir(paths[i])}; gone = set(range(n)) - have
+        if len(have) != min(n, k - 1):
+            return {'kind': 'automatic-cleaning-not-until-the-quota-is-met', 'kept': sorted('P%d' % i for i in have), 'room_for_old_packages': k - 1, 'history': log}
+        # (equal time stamps may be ordered either way)
+        bad = [(a, b) for a in have for b in gone if last_use[a] < last_use[b]]
+        if bad:
+            return {'kind': 'automatic-cleaning-not-oldest-first', 'kept': sorted('P%d' % i for i in have), 'removed': sorted('P%d' % i for i in gone), 'history': log,
+                    'what': 'P%d was kept although P%d, used more recently, was removed' % bad[0]}
+        return None
+    finally:
+        shutil.rmtree(base, ignore_errors=True)
+
 def replay(rep):
     seed = int(os.environ.get('VERIF_SEED', '0') or 0); rnd = random.Random(seed)
     budget = float(os.environ.get('VERIF_BOUNDED_BUDGET', '25')); t0 = time.time(); tried = 0
@@ -237,6 +283,9 @@ def replay(rep):
             if w is not None: return {'reproduced': True, 'tried': tried, 'witness': w}
     w = unregistered_user(); tried += 1
     if w is not None: return {'reproduced': True, 'tried': tried, 'witness': w}
+    for _ in range(30):
+        w = oldest_first(rnd); tried += 1
+        if w is not None: return {'reproduced': True, 'tried': tried, 'witness': w}
     bid = bytes([7]) * 20; bid2 = bytes([9]) * 20
     ops = [('install', bid, 'x'), ('gc-unused', bid), ('use', bid2), ('gc-auto', bid)]
     if os.environ.get('VERIF_TIER') == 'thorough': ops += [('use', bid), ('install', bid2, 'other'), ('gc-all', bid)]
